@@ -107,8 +107,19 @@ def rhd_params(cfg, rundir, name="run.param"):
     for ax, b in zip("xyz", bnd):
         L += ["  boundary %s high: %s" % (ax, b), "  boundary %s low: %s" % (ax, b)]
     src = cfg.get("source", [anchor[i] + 0.5 * sides[i] for i in range(3)])
-    L += ["PhotonSourceDistribution:", "  type: SingleStar", "  position: " + _vec(src, "m"),
-          "  luminosity: %r s^-1" % cfg.get("luminosity", 1e49)]
+    vs = cfg.get("varsources")
+    if vs:
+        # time dependent source distribution: short lived sources at random positions, so that the subgrid copy
+        # hierarchy is rebuilt (copies deleted and re-created) between steps
+        L += ["PhotonSourceDistribution:", "  type: UniformRandom", "  number of sources: %d" % vs.get("n", 3),
+              "  source lifetime: %r s" % vs["lifetime"], "  source luminosity: %r s^-1" % cfg.get("luminosity", 1e49),
+              "  box anchor: " + _vec([anchor[i] + 0.1 * sides[i] for i in range(3)], "m"),
+              "  box sides: " + _vec([0.8 * sides[i] for i in range(3)], "m"),
+              "  update interval: %r s" % vs["update_interval"], "  starting time: 0. s",
+              "  random seed: %d" % vs.get("seed", 42), "  output sources: false"]
+    else:
+        L += ["PhotonSourceDistribution:", "  type: SingleStar", "  position: " + _vec(src, "m"),
+              "  luminosity: %r s^-1" % cfg.get("luminosity", 1e49)]
     L += ["PhotonSourceSpectrum:", "  type: Monochromatic", "  frequency: 13.6 eV"]
     T = ["TaskBasedRadiationHydrodynamicsSimulation:", "  CFL: %r" % cfg.get("cfl", 0.2),
          "  total time: %r s" % cfg["total_time"], "  do radiation: %s" % str(bool(cfg.get("radiation"))).lower(),
